@@ -20,3 +20,24 @@ package zipslicer
 //@   nopanic
 //@   allocbound 0 262144
 //@   loop 1 sig "for len(extra) >= 4" invariant len(extra) <= 65535
+//@
+//@ func ZipToTar
+//@   property C09
+//@   ghost pos int = -1
+//@   ghost size0 int = -1
+//@   ghost dirLoc0 int = -1
+//@   ghost members int = 0
+//@   on call (*os.File).Seek(f, off, whence) ret (n, e): pos = ite(e == nil && f == r, ite(whence == 0, off, n), -1); size0 = ite(whence == 2 && off == 0, n, size0)
+//@   on call FindDirectory(_, sz) ret (loc, e): dirLoc0 = loc
+//@   before call tarAddStream(_, src, name, n): assert @members_read_from_the_file src == iface(r)
+//@   before call tarAddStream(_, src, name, n): assert @directory_member_first members == 0 ==> name == TarMemberCD
+//@   before call tarAddStream(_, src, name, n): assert @directory_member_from_its_offset members == 0 ==> pos == dirLoc0
+//@   before call tarAddStream(_, src, name, n): assert @directory_member_size members == 0 ==> n == size0 - dirLoc0
+//@   before call tarAddStream(_, src, name, n): assert @then_the_whole_file_from_offset_zero members == 1 ==> name == TarMemberZip && pos == 0 && n == size0
+//@   before call tarAddStream(_, src, name, n): assert @exactly_two_members members <= 1
+//@   on call tarAddStream(_, _, _, n) ret (e): members = members + 1; pos = -1
+//@   ensures @both_members_emitted ret0 == nil ==> members == 2
+//@
+//@ func tarAddStream
+//@   property C09
+//@   before call io.CopyN(_, src, n): assert @member_body_is_exactly_the_announced_size n == size && src == r
